@@ -87,6 +87,7 @@ static void nv_dims_fill(struct nv_dims* d, int64_t v) { d->d[0] = v; d->d[1] = 
 #define NV_DOK(D) NV_APPLY(NV_OKE, NV_ELS(D))
 #define NV_DZERO(D) NV_APPLY(NV_EQE, D, NV_ZEROS)            /* every extent is 0 (the default-constructed tensor) */
 static int64_t nv_size(const struct nv_dims* dims) { return NV_DPROD(*dims); }
+static int64_t nv_extent(const struct nv_base* b, int k) { __CPROVER_assert(0 <= k && k < NV_RANK, "size<k>(): k < rank"); return b->m_dims.d[k]; }    /* size<k>() == dims[k] */
 #define NV_SIZE(b) NV_DPROD((b).m_dims)
 #define NV_DIMS_EQ(a, b) NV_DEQ((a).m_dims, (b).m_dims)
 #define NV_DIMS_OK(b) NV_DOK((b).m_dims)
